@@ -191,12 +191,29 @@ func (r *Run) lock(mu interface{}, try func() bool, site string) {
 func (r *Run) unlock(mu interface{}, unlock func(), site string) {
 	unlock()
 	r.mu.Lock()
-	for _, p := range r.parked {
-		if p.waitMu == mu {
-			p.blocked = false
+	var wake []*Parked
+	if r.siteDen == 0 {
+		// free-running: lock waiters are woken by the unlock itself, in arrival order
+		rest := r.parked[:0]
+		for _, p := range r.parked {
+			if p.waitMu == mu {
+				wake = append(wake, p)
+			} else {
+				rest = append(rest, p)
+			}
+		}
+		r.parked = rest
+	} else {
+		for _, p := range r.parked {
+			if p.waitMu == mu {
+				p.blocked = false
+			}
 		}
 	}
 	r.mu.Unlock()
+	for _, p := range wake {
+		close(p.ch)
+	}
 }
 
 // Go starts a named task goroutine that begins parked.
@@ -316,6 +333,7 @@ func Execute(t *testing.T, tape *Tape, traceCap int, fn func(r *Run)) *Run {
 		verifhook.PermFn = nil
 		verifhook.SelOrderFn = nil
 		verifhook.JitterFn = nil
+		LogHook = nil
 		verifhook.IntnFn = nil
 		verifhook.DialFn = nil
 		verifhook.RankFn = nil
